@@ -515,6 +515,9 @@ func c12prop(ev *evid.Rec) func(rt *rapid.T) {
 					}
 					c := pick("who", isConn)
 					id := genBytes(rt, "chatid", 4)
+					if bytes.Equal(id, []byte{0, 0, 0, 0}) {
+						rt.Skip() // chat id 0 is the public chat, not an unknown one
+					}
 					for _, ch := range chats {
 						if ch.id == string(id) {
 							rt.Skip()
